@@ -22,19 +22,19 @@ Inductive scenario :=
 | Raw (c : N) (reason : text) (hs : list hop)            (* own HTTPHeaders + write_headers *)
 | Wsgi (status : text) (hs : list (text * text)).        (* WSGIContainer start_response *)
 
-(* input: ((Server value, Date value), scenario) *)
-Definition run_case (i : (text * text) * scenario) : obs :=
-  let '(env, sc) := i in
+(* input: ((Server value, Date value), request context, scenario) *)
+Definition run_case (i : (text * text) * ctx * scenario) : obs :=
+  let '(env, x, sc) := i in
   match sc with
   | Handler ops =>
-      let '(rs, fin, w) := run env ops in
+      let '(rs, fin, w) := run env x ops in
       OList [OList (map obs_res rs);
              match fin with None => ONone | Some r => obs_res r end;
              OBytes w]
   | Raw c rsn hs =>
-      let '(rs, fin, w) := run_raw c rsn hs in
+      let '(rs, fin, w) := run_raw x c rsn hs in
       OList [OList (map obs_res rs); obs_res fin; OBytes w]
-  | Wsgi status hs => OList [OList []; ONone; OBytes (run_wsgi (fst env) status hs)]
+  | Wsgi status hs => OList [OList []; ONone; OBytes (run_wsgi x (fst env) status hs)]
   end.
 
 (* ================= the property on observables ================= *)
@@ -90,9 +90,9 @@ Definition well_formed_header (l : text) : bool :=
   match split_colon_sp l with Some (n, _) => is_token n | None => false end.
 
 (* ---- what each call is entitled to put on the wire, given its own outcome ---- *)
-Definition cookie_line (n v : text) (d p ss : option pstr) : text :=
+Definition cookie_line (n v : text) (d p ss : option pstr) (fl : cflags) : text :=
   header_line (k_setcookie,
-               output_string (mkMorsel n (cookie_quote v) (attr_val d) (attr_val p) (attr_val ss))).
+               output_string (mkMorsel n (cookie_quote v) (attr_val d) (attr_val p) (attr_val ss) fl)).
 Definition attr_clean (a : option pstr) : bool :=
   match a with
   | None => true
@@ -103,13 +103,14 @@ Definition entitled (o : op) (r : res) : list text :=
   match o, r with
   | SetHeader (Str n) v, Ok => [header_line (normalize_u n, value_text v)]
   | AddHeader (Str n) v, Ok => [header_line (normalize_u n, value_text v)]
-  | SetCookie n v d p ss, Ok =>
+  | SetHeaderNum (Str n) v, Ok => [header_line (normalize_u n, dec v)]
+  | SetCookie n v d p ss fl, Ok =>
       (* only a cookie whose parts cannot break out of their place in the Set-Cookie line *)
       match native_str n, native_str v with
       | Some n', Some v' =>
           if negb (existsb cookie_value_bad v') && negb (existsb cookie_attr_bad n')
              && attr_clean d && attr_clean p && attr_clean ss
-          then [cookie_line n' v' d p ss] else []
+          then [cookie_line n' v' d p ss fl] else []
       | _, _ => []
       end
   | Redirect u _, Ok | Redirect u _, Err EOutput =>
@@ -124,8 +125,9 @@ Fixpoint app_lines (ops : list op) (rs : list res) : list text :=
 (* lines the framework itself contributes *)
 Definition default_lines (env : text * text) : list text :=
   [header_line (k_server, fst env); header_line (k_ctype, v_ctype); header_line (k_date, snd env)].
+Definition conn_lines : list text := [header_line (k_conn, v_close); header_line (k_conn, v_keepalive)].
 Definition framing_lines : list text :=
-  [header_line (k_te, v_chunked); header_line (k_clen, dec 0)].
+  [header_line (k_te, v_chunked); header_line (k_clen, dec 0)] ++ conn_lines.
 
 (* routes 2 and 3 *)
 Definition pair_line (kv : text * text) : text := header_line (normalize_u (fst kv), snd kv).
@@ -142,7 +144,7 @@ Fixpoint raw_lines (hs : list hop) (rs : list res) : list text :=
   end.
 Definition wsgi_consts (env : text * text) : list text :=
   [header_line (k_te, v_chunked); header_line (k_clen, dec 0); header_line (k_ctype, v_ctype);
-   header_line (k_server, fst env)].
+   header_line (k_server, fst env)] ++ conn_lines.
 
 (* ---- status line: HTTP/1.1 <code> <reason>, code and reason traceable to a call ---- *)
 Definition codes_of (o : op) : list N :=
@@ -186,7 +188,7 @@ Section Checker.
         existsb (fun c => opt_text_eqb c sl) (status_candidates ops)
         && forallb well_formed_header hls
         && forallb (fun l => mem_text l (default_lines env ++ framing_lines ++ app_lines ops rs)) hls
-        && Nat.leb (List.length hls) (4 + List.length (app_lines ops rs))%nat
+        && Nat.leb (List.length hls) (5 + List.length (app_lines ops rs))%nat
     end.
 
   (* routes 2 and 3: the start line is exactly HTTP/1.1 <code> <reason as given>; each header line
@@ -201,8 +203,8 @@ Section Checker.
         && Nat.leb (List.length hls) bound
     end.
 
-  Definition check_gen (i : (text * text) * scenario) (o : obs) : bool :=
-    let '(env, sc) := i in
+  Definition check_gen (i : (text * text) * ctx * scenario) (o : obs) : bool :=
+    let '(env, x, sc) := i in
     match o with
     | OList [OList ors; _; OBytes w] =>
         match sequence_o (map res_of_obs ors) with
@@ -216,8 +218,8 @@ Section Checker.
                 Nat.eqb (List.length rs) (List.length hs) &&
                 match w with
                 | [] => true
-                | _ => lines_ok c rsn (header_line (k_te, v_chunked) :: raw_lines hs rs)
-                                (1 + List.length (raw_lines hs rs)) w
+                | _ => lines_ok c rsn (header_line (k_te, v_chunked) :: conn_lines ++ raw_lines hs rs)
+                                (2 + List.length (raw_lines hs rs)) w
                 end
             | Wsgi status hs =>
                 match w with
@@ -226,7 +228,7 @@ Section Checker.
                        | Some (cs, rsn) =>
                            match py_int cs with
                            | Some c => lines_ok c rsn (wsgi_consts env ++ map pair_line hs)
-                                                (4 + List.length hs) w
+                                                (5 + List.length hs) w
                            | None => false
                            end
                        | None => false
